@@ -1428,3 +1428,26 @@ def paramvis(repo, templates):
                 "class: the header does not compile", TEMPLATES, templates.templates[name]["line"], name)
     res.analysed = [TEMPLATES, sr.rel]
     return res
+
+
+def resubrepl(repo):
+    """R-RESUBREPL (C07): in a replacement string of re.sub, `\\0` is the NUL character (an octal escape), not "the whole
+    match" (that is `\\g<0>`).  No literal replacement passed to re.sub/re.subn in the compiler contains a backslash
+    followed by `0`; the one user, _cpp_string_escape, builds #include lines from import file names."""
+    res = RuleResult("R-RESUBREPL")
+    for m in repo.modules.values():
+        if not m.rel.startswith("compiler/"):
+            continue
+        for f in m.funcs.values():
+            for n in walk_no_nested_funcs(f.node):
+                if isinstance(n, ast.Call) and (call_name(n) or "") in ("re.sub", "re.subn") and len(n.args) >= 2:
+                    res.instances += 1
+                    r = n.args[1]
+                    if isinstance(r, ast.Constant) and isinstance(r.value, str) and re.search(r"\\0(?![0-9])|\\00", r.value):
+                        res.add(f"{m.rel}|{f.qualname}|nul-replacement", f"{f.qualname} calls re.sub with the replacement {r.value!r}: `\\0` "
+                                "there is a NUL character, so every escaped character is replaced by backslash + NUL "
+                                "(`import \"it's.emb\"` -> `#include \"it\\<NUL>s.emb.h\"`)", m.rel, n.lineno, f.qualname)
+    if res.instances < 3 and not res.findings:
+        raise AnalysisError(f"only {res.instances} re.sub calls found in the compiler")
+    res.analysed = ["compiler/**/*.py"]
+    return res
